@@ -51,6 +51,10 @@ CHECKS = {
          "explicit-state search (BFS with model-state deduplication) over operation histories executed on the real Runtime / Package / TypedFunc objects, with a drop-tracking ledger and code-liveness hooks as oracles",
          "All sequences up to depth 8 (thorough 11) of {new runtime, compile script version 1|2, get handle, clone handle, call handle, drop handle here or on another thread, drop package, drop runtime} with at most 1 live runtime, 2 live packages and 3 live handles, deduplicated by the reference model's state; every transition is executed on fresh real objects by replaying the representative history. After every step: each call returns the value its version defines, the ledger of live tracked values (script constant, registered constant, value captured by a registered closure) equals what the model says must be alive, machine code was freed for exactly the dead modules (hook H3), nothing is dropped twice; at the end everything is released.",
          "Equal model keys have equal futures (argued in the evidence); depth bound; two script versions."),
+ "C12": ("4/C12",
+         "stateless model checking of real threads calling real compiled code under a controlled scheduler (all interleavings up to a preemption bound at script host-call / type-registry-lock / list-lock granularity) plus exhaustive enumeration of type-level API probes decided by rustc and, where wrongly accepted, exhibited as a concrete losing schedule",
+         "Part A: all programs of 2 threads x 1 operation over 8 operations (unbounded) and 2 x 2 over 5 operations (bound 2; thorough 3 threads / 3 operations, bound 3) from {call with locals+record / tracked values+tracked constant / strings / shared list across host calls, clone+call, get_function, compile+call on the shared runtime (hot reload), drop the package}; every schedule is executed on the real code: each call returns its single-threaded value, the shared list holds exactly what was pushed, the ledger balances, no panic or deadlock. Part B: 18 probes = every API entry point that accepts user state x {Sync, Send+!Sync, !Send}, type-checked by rustc; state reachable from two threads must be Sync; a wrongly accepted probe is run under the scheduler until a lost update is exhibited.",
+         "Interleavings inside compiled code between two schedule points and weak-memory behaviour are not explored (generated code touches only its own stack frame and read-only constants: argued from the code)."),
  "C13": ("4/C13",
          "exhaustive enumeration of module trees x item placements x reference forms x import placements, compiled in memory and from disk, against a reference resolver written from the documented lookup rules",
          "All module-tree shapes with <= 3 modules (thorough 4, depth 2), a function, a constant and a record each placed in every subset of the modules with distinct tags, referenced from every module and five nesting positions by 16 path forms, 7 shadowing variants, 6 import kinds x 10 import placements; plus get_function for 22 module paths incl. non-existent ones, in memory and in every on-disk layout (name.roto vs name/mod.roto, distractor files, both present): the compiled call returns exactly the tag the reference resolver designates, or compilation fails exactly when the resolver says the name is not reachable.",
